@@ -389,6 +389,7 @@ class Interp:
                     self.const_cache[cand] = self.run(f, [])
                 return dup(self.const_cache[cand])
         ns = strip_generics(s)
+        if ns == 'cw2::CONTRACT': return Agg('NS', ['contract_info'])          # cw2's own storage item (external crate constant)
         if ns.startswith('std::marker::PhantomData'): return UNIT()
         ev = self.variant_of(ns, fn.crate if fn is not None else '')
         if ev: return Enum(ev[0], ev[1], [])
